@@ -192,11 +192,22 @@ def add_occupancy(rnd, spec, info, force=None, ei=0):
     return s
 
 
+def names_nest(spec):
+    """True if one rank name is a prefix of another (N / NW, M / MN): together with flatten()
+    the concatenated names of flattened ranks and partition levels become ambiguous for the
+    USER as well (is NW0 level 0 of NW or the flattening of N and W0?), so the flatten
+    generators leave such specs alone."""
+    rs = sorted({r for v in spec.decl.values() for r in v})
+    return any(a != b and b.startswith(a) for a in rs for b in rs)
+
+
 def add_flatten(rnd, spec, info, force=None, ei=0):
     """flatten() of 2-3 ranks of one input tensor, optionally after a shape
     split of the last one (as sigma does) and optionally followed by
     uniform_occupancy of the flattened rank."""
     s = spec.clone()
+    if names_nest(s):
+        return None
     e = s.exprs[ei]
     out = e.out.name
     cands = [a.name for a in e.inputs() if len(s.decl[a.name]) >= 2]
@@ -265,6 +276,8 @@ def add_double_flatten(rnd, spec, info, ei=0):
     """Two interleaved flattenings of one 4-rank input, e.g. (M, O) and (N, P)
     of A[M, N, O, P]; loop order: the two flattened ranks, then the rest."""
     s = spec.clone()
+    if names_nest(s):
+        return None
     e = s.exprs[ei]
     out = e.out.name
     cands = [a.name for a in e.inputs() if len(s.decl[a.name]) >= 4]
